@@ -207,6 +207,7 @@ func runC05(c *Ctx) {
 	r.NotDecided = []string{"equivalence of the recursive validator + linkNodes with the specification over all node-type sequences", "insertion of a fresh empty graph by a failing RegisterPipeline is exempt by table (adds no pipeline, node or usage)"}
 	c.ruleGraphMap("", "C05.map")
 	c.ruleOneSection("C05.section")
+	c.ruleNilNode("C05.nilnode")
 	// "no existing pipeline with that ID and type forbids overwriting": the policy consulted is that entry's, no other
 	c.rulePolicySource("C05.policy")
 	ef := c.newEffects()
